@@ -4,8 +4,8 @@
   Reading guide.  `run init chunks` is the model of `readTlvStream` driven by a reader that returns
   the chunks one after the other (a chunk larger than the free space of the receive buffer is
   handed over in several reads — reads are bounded by the free space) and then reports EOF.
-  `Admissible blocks`: every block is a well-formed TLV (shortest-form T and L, |V| = L) of at
-  most 8800 bytes.  There is no bound on the number of blocks, the total length or the number
+  `Admissible blocks`: every block is a well-formed TLV (T and L in ANY form the readers accept —
+  1, 3, 5 or 9 bytes, shortest or not —, |V| = L) of at most 8800 bytes.  There is no bound on the number of blocks, the total length or the number
   and sizes of the chunks.
 -/
 import NdnVerif.C11.Lemmas
@@ -45,8 +45,40 @@ example : run init [[6], [2, 1], [2, 0xfd, 3], [0x20, 1, 7], []] = ([[6, 2, 1, 2
       intro b hb
       simp at hb
       rcases hb with rfl | rfl
-      · exact ⟨⟨6, [1, 2], by decide, by decide⟩, by decide⟩
-      · exact ⟨⟨0x320, [7], by decide, by decide⟩, by decide⟩)
+      · exact ⟨by decide, by decide⟩
+      · exact ⟨by decide, by decide⟩)
+    (by decide)
+
+/-- **C11, the quantifier's "1/3/5-byte length forms".**  A block of at most 8800 bytes whose T and L
+    are written in ANY form that holds them — in particular L in the 5-byte form, which is never the
+    shortest one for such a block — is admissible, so every clause below covers it: it is framed by
+    what was read of it (`rdr.Pos()`), not by what its numbers would take in the shortest form. -/
+theorem every_length_form_is_admissible (ft fl typ : Nat) (v : Bytes) (ht : formFits ft typ)
+    (hl : formFits fl v.length)
+    (hsz : (encTLForm ft typ ++ encTLForm fl v.length ++ v).length ≤ specMaxPkt) :
+    Admissible [encTLForm ft typ ++ encTLForm fl v.length ++ v] := by
+  intro b hb
+  simp at hb; subst hb
+  exact ⟨by simpa using wellFormed_of_forms ft fl typ v ht hl, by simpa using hsz⟩
+
+/-- the shortest form, which the specification required until round 13, is a special case -/
+theorem shortest_form_is_admissible (b : Bytes) (h : ShortestForm b) (hsz : b.length ≤ specMaxPkt) :
+    Admissible [b] := by
+  intro b' hb
+  simp at hb; subst hb
+  exact ⟨wellFormed_of_shortest h (by unfold specMaxPkt at hsz; omega), hsz⟩
+
+/-- non-vacuity: type 6 in the 3-byte form, length 2 in the 5-byte form, cut inside T and inside L;
+    then an ordinary block -/
+example : run init [[0xfd, 0], [6, 0xfe, 0, 0], [0, 2, 1], [2, 6, 2, 1, 2]] =
+    ([[0xfd, 0, 6, 0xfe, 0, 0, 0, 2, 1, 2], [6, 2, 1, 2]], Outcome.eof) :=
+  stream_refines_blocks [[0xfd, 0, 6, 0xfe, 0, 0, 0, 2, 1, 2], [6, 2, 1, 2]] _
+    (by
+      intro b hb
+      simp at hb
+      rcases hb with rfl | rfl
+      · exact every_length_form_is_admissible 3 5 6 [1, 2] (by decide) (by decide) (by decide) _ (by simp [encTLForm, be])
+      · exact ⟨by decide, by decide⟩)
     (by decide)
 
 /-- **C11, reads that come with an ignored error.**  The same for read results `(bytes, ignored error?)`
@@ -62,7 +94,7 @@ example : runE init [([6, 2], true), ([], true), ([1, 2], false)] = ([[6, 2, 1, 
     (by
       intro b hb
       simp at hb; subst hb
-      exact ⟨⟨6, [1, 2], by decide, by decide⟩, by decide⟩)
+      exact ⟨by decide, by decide⟩)
     (by decide)
 
 /-- **C11, prompt delivery (refinement of the abstract receiver after every read).**  At any moment
@@ -95,8 +127,8 @@ example : (run init [[6, 2, 1], [2, 0xfd]]).1 = [[6, 2, 1, 2]] := by
       intro b hb
       simp at hb
       rcases hb with rfl | rfl
-      · exact ⟨⟨6, [1, 2], by decide, by decide⟩, by decide⟩
-      · exact ⟨⟨0x320, [7], by decide, by decide⟩, by decide⟩)
+      · exact ⟨by decide, by decide⟩
+      · exact ⟨by decide, by decide⟩)
     (by decide)]
   decide
 
@@ -126,12 +158,12 @@ example : runConns [[[6, 2, 1], [2, 0xfd, 3]], [[6, 2], [1, 2]]] = [[6, 2, 1, 2]
     intro b hb
     simp at hb
     rcases hb with rfl | rfl
-    · exact ⟨⟨6, [1, 2], by decide, by decide⟩, by decide⟩
-    · exact ⟨⟨0x320, [7], by decide, by decide⟩, by decide⟩
+    · exact ⟨by decide, by decide⟩
+    · exact ⟨by decide, by decide⟩
   have hB : Admissible [[6, 2, 1, 2]] := by
     intro b hb
     simp at hb; subst hb
-    exact ⟨⟨6, [1, 2], by decide, by decide⟩, by decide⟩
+    exact ⟨by decide, by decide⟩
   have := reconnect_fresh_buffer
     [([[6, 2, 1, 2], [0xfd, 3, 0x20, 1, 7]], [[6, 2, 1], [2, 0xfd, 3]], [[0x20, 1, 7]]),
      ([[6, 2, 1, 2]], [[6, 2], [1, 2]], [])]
@@ -162,7 +194,7 @@ example : (onRead init [6, 2, 1]).1.tlvOff = 0 ∧ (onRead init [6, 2, 1]).1.unr
       intro b hb
       simp at hb
       subst hb
-      exact ⟨⟨6, [1, 2], by decide, by decide⟩, by decide⟩) init [6, 2, 1] [2] (by decide)
+      exact ⟨by decide, by decide⟩) init [6, 2, 1] [2] (by decide)
 
 /-- **C11, application-side counterpart** (`std/engine/face/stream_face.go` `StreamFace.Run`: read T,
     read L, read exactly L bytes).  Same statement: for every admissible block list and every
@@ -197,8 +229,8 @@ example : appRun [] [[6], [2, 1], [2, 0xfd, 3], [0x20, 1, 7]] = ([[6, 2, 1, 2], 
       intro b hb
       simp at hb
       rcases hb with rfl | rfl
-      · exact ⟨⟨6, [1, 2], by decide, by decide⟩, by decide⟩
-      · exact ⟨⟨0x320, [7], by decide, by decide⟩, by decide⟩)
+      · exact ⟨by decide, by decide⟩
+      · exact ⟨by decide, by decide⟩)
     (by decide)
 
 /-- application side, after every chunk: exactly the completely received blocks were handed up -/
@@ -230,8 +262,8 @@ example : (appRun [] [[6, 2, 1], [2, 0xfd]]).1 = [[6, 2, 1, 2]] := by
       intro b hb
       simp at hb
       rcases hb with rfl | rfl
-      · exact ⟨⟨6, [1, 2], by decide, by decide⟩, by decide⟩
-      · exact ⟨⟨0x320, [7], by decide, by decide⟩, by decide⟩)
+      · exact ⟨by decide, by decide⟩
+      · exact ⟨by decide, by decide⟩)
     (by decide)]
   decide
 
